@@ -26,7 +26,7 @@ MANIFEST = {
             "index, names, field order); the hand-written 26+4+1+1-arm conversion is checked arm by arm for kind and field provenance. All "
             "26+4+2+2 items are obligations, so a swap of two adjacent variants or fields anywhere is a violation whether or not a sample hits it.",
     "note": "Trusted: serde_derive's generated code means what its Serializer calls say; postcard encodes those calls per C02 (index as varint, fields in call order).",
-    "technique": "static analysis: ADT table comparison + sibling agreement of derive-generated MIR + per-arm provenance check of conversions",
+    "technique": "static analysis: ADT table comparison + sibling agreement of derive-generated MIR + per-arm provenance check of every fn(&Borrowed) -> Owned conversion",
 }
 
 PAIRS = [("DataModelType", "OwnedDataModelType"), ("Data", "OwnedData"), ("NamedField", "OwnedNamedField"), ("Variant", "OwnedVariant")]
